@@ -427,7 +427,7 @@ def run(ctx):
                 tok0 = (dl[q].split() or [""])[0] if q < len(dl) else ""
                 if tok0 != "*" and tok0.capitalize() not in valid_symbols:
                     ctx.violation("C10:invalid-symbol-accepted",
-                                  f"{kind} of {base_name}: the atom line {dl[q]!r} was accepted although {tok0!r} is not an element symbol", replay)
+                                  f"{kind} of {base_name}: the atom line {(dl[q] if q < len(dl) else '<past the end of the text>')!r} was accepted although {tok0!r} is not an element symbol", replay)
                     break
             p0 += 2 + len(f["atoms"])
         if record is not None and base_frames != "err" and not tl.frames_equal(impl, base_frames):
